@@ -4,7 +4,7 @@ EXTENDS Exchange, Json, IOUtils, SequencesExt
 CONSTANT Mode
 A == 97
 PrimStrs == {<<A>>, <<A, 98>>, <<>>, <<A, COMMA, 98>>, <<A, DOT, 98>>, <<A, SEMI, 98>>, <<A, EQ, 98>>, <<A, PIPE, 98>>, <<A, 32, 98>>,
-             <<195, 169>>, <<PCT, 52, 49>>, <<A, 47, 98>>, <<A, AMP, 98>>, <<43>>, <<63>>, <<35>>, <<A, LBR, 98, 93>>, <<DOT>>, <<SEMI, A>>}
+             <<195, 169>>, <<PCT, 52, 49>>, <<A, 47, 98>>, <<A, AMP, 98>>, <<43>>, <<63>>, <<35>>, <<A, LBR, 98, 93>>, <<DOT>>, <<SEMI, A>>, <<32, A>>, <<A, 32>>, <<9, A>>}
 Ints == {0, 7, 0 - 1}
 Arrs == {<<Str(<<A>>)>>, <<Str(<<A>>), Str(<<98>>)>>, <<>>, <<Str(<<>>)>>, <<Str(<<A, COMMA, 98>>)>>, <<Str(<<A>>), Str(<<>>)>>, <<Str(<<A, PIPE, 98>>)>>,
          <<Str(<<A, 32, 98>>), Str(<<195, 169>>)>>, <<Str(<<A, DOT, 98>>)>>, <<Str(<<A, SEMI, 98>>), Str(<<A>>)>>, <<Str(<<A, EQ, 98>>)>>, <<Str(<<A, AMP, 98>>), Str(<<PCT, 52, 49>>)>>}
@@ -13,16 +13,18 @@ Objs == {<<Str(<<A>>), Absent>>, <<Str(<<A>>), Str(<<98>>)>>, <<Absent, Absent>>
 ValsOf(shape, ty) ==
   CASE shape = "prim" /\ ty = "str" -> {Str(s) : s \in PrimStrs}
     [] shape = "prim" /\ ty = "int" -> {IntV(n) : n \in Ints}
+    [] shape = "prim" /\ ty = "num" -> {NumT(x) : x \in {"0.5", "-2.5", "0", "1e-11", "3.141592653589793", "1e+21", "1.23456789125e+08", "1.0000000000001"}}
+    [] shape = "prim" /\ ty = "dt" -> {TimeT(x) : x \in {"2020-01-02T03:04:05Z", "2020-01-02T03:04:05.5Z", "1999-12-31T23:59:59.999999999Z"}}
     [] shape = "arr" -> {Arr(a) : a \in Arrs}
     [] shape = "obj" -> {Obj(o) : o \in Objs}
-Rows == {[c |-> c, ty |-> ty] : c \in {x \in AllCfgs : Admitted(x)}, ty \in {"str", "int"}} \ {r \in [c : AllCfgs, ty : {"int"}] : r.c.shape # "prim"}
+Rows == {[c |-> c, ty |-> ty] : c \in {x \in AllCfgs : Admitted(x)}, ty \in {"str", "int", "num", "dt"}} \ {r \in [c : AllCfgs, ty : {"int", "num", "dt"}] : r.c.shape # "prim"}
 Bodies == {Obj(<<IntV(1), s, on, l>>) : s \in {Absent, Str(<<120>>), Str(<<>>)}, on \in {Absent, Null, Str(<<121>>)}, l \in {Absent, Arr(<<>>), Arr(<<IntV(1), IntV(2)>>)}}
 RespCodes == {0, 100, 200, 201, 204, 302, 400, 404, 499, 500, 599}
 Resps == {[v |-> v, k |-> 0, hdr |-> h] : v \in {"ok200"}, h \in {Absent, Str(<<104>>), Str(<<A, 32, 98, COMMA, 99>>)}} \cup {[v |-> "created201", k |-> 0, hdr |-> Absent]}
-         \cup {[v |-> v, k |-> k, hdr |-> Absent] : v \in {"pat4XX", "default"}, k \in RespCodes}
+         \cup {[v |-> v, k |-> k, hdr |-> h] : v \in {"pat4XX", "default"}, k \in RespCodes, h \in {Absent, Str(<<104, 52>>)}}
 EmitOut ==
   CASE Mode = "rows" -> SetToSeq(Rows)
-    [] Mode = "vals" -> SetToSeq(UNION {{[shape |-> sh, ty |-> ty, v |-> v] : v \in ValsOf(sh, ty)} : sh \in Shapes, ty \in {"str"}} \cup {[shape |-> "prim", ty |-> "int", v |-> v] : v \in ValsOf("prim", "int")})
+    [] Mode = "vals" -> SetToSeq(UNION {{[shape |-> sh, ty |-> ty, v |-> v] : v \in ValsOf(sh, ty)} : sh \in Shapes, ty \in {"str"}} \cup {[shape |-> "prim", ty |-> ty, v |-> v] : <<ty, v>> \in UNION {{<<t, w>> : w \in ValsOf("prim", t)} : t \in {"int", "num", "dt"}}})
     [] Mode = "bodies" -> SetToSeq({[b |-> b] : b \in Bodies})
     [] Mode = "resps" -> SetToSeq(Resps)
 ASSUME ndJsonSerialize(IOEnv.VERIF_VECTORS, EmitOut)
